@@ -1,3 +1,6 @@
+-- The library root imports the executable model (what the driver runs). The proof modules are built per property
+-- (`lake build Evenio.Props.Cxx`, see lean/obligations.json and tools/build_all.sh): they were developed independently and
+-- some helper lemmas share names, so they are not imported into one environment here.
 import Evenio.Model.Types
 import Evenio.Generated.AccessTables
 import Evenio.Generated.Gates
@@ -8,52 +11,10 @@ import Evenio.Model.SlotMap
 import Evenio.Model.HandlerList
 import Evenio.Model.SparseMap
 import Evenio.Model.Storage
+import Evenio.Model.StoragePure
 import Evenio.Model.Script
 import Evenio.Model.World
 import Evenio.Model.Step
 import Evenio.Model.Gates
 import Evenio.Model.Inv
 import Evenio.Model.ParIter
-import Evenio.Proofs.AccessSem
-import Evenio.Proofs.Merge
-import Evenio.Proofs.QuerySem
-import Evenio.Proofs.Conflict
-import Evenio.Proofs.SlotMap
-import Evenio.Proofs.HandlerList
-import Evenio.Proofs.SparseMap
-import Evenio.Proofs.ParIter
-import Evenio.Props.C01
-import Evenio.Props.C03
-import Evenio.Props.C05
-import Evenio.Props.C06
-import Evenio.Props.C07
-import Evenio.Props.C16
-import Evenio.Props.C18
-import Evenio.Props.C19
-import Evenio.Model.StoragePure
-import Evenio.Proofs.Storage
-import Evenio.Proofs.StorageOps
-import Evenio.Proofs.Flush
-import Evenio.Proofs.DropQueued
-import Evenio.Proofs.FlushPanic
-import Evenio.Proofs.Keeps
-import Evenio.Proofs.HoareOk
-import Evenio.Proofs.Frame
-import Evenio.Proofs.ArenaEpoch
-import Evenio.Proofs.FrameFlush
-import Evenio.Proofs.DeliverOne
-import Evenio.Proofs.DeliverOneFifo
-import Evenio.Proofs.Disposition
-import Evenio.Proofs.DispositionFlush
-import Evenio.Props.C02
-import Evenio.Props.C04
-import Evenio.Props.C11
-import Evenio.Props.C12
-import Evenio.Props.C13
-import Evenio.Props.C20
-import Evenio.Proofs.Hoare
-import Evenio.Proofs.Effect
-import Evenio.Props.C09
-import Evenio.Proofs.Listeners
-import Evenio.Props.C08
-import Evenio.Props.C15
